@@ -1,2 +1,9 @@
-HOOK_COMMITS = []
+import subprocess
+def _hook_commits():
+    try:
+        out = subprocess.run(['git', '-C', '/repo', 'log', '--format=%h %s'], capture_output=True, text=True).stdout
+        return [l.split()[0] for l in out.split('\n') if l[8:].startswith('hook:') or ' hook:' in l[:16]]
+    except Exception:
+        return []
+HOOK_COMMITS = _hook_commits()
 NOTES = "Every check: builds the Go harness against /repo's working tree (tag verif), rebuilds the Coq targets it needs (full .vo), compiles the property file capturing Print Assumptions, evaluates the correspondence cases with vm_compute, runs the property oracle on the implementation, applies known_findings.json. See DESIGN.md."
